@@ -42,7 +42,10 @@ RULE = ("a case is one operation of a generated call history over a pool of 6-8 
         "shapes, use font and XObject names only the previous page defines, show text before any Tf; observables "
         "include shapes (LTRect/LTLine/LTCurve with points, width, colours, original path); every pool holds >= 2 "
         "pairs of composite fonts of ONE character collection in horizontal and vertical writing (Identity-H/V and "
-        "predefined -H/-V CMaps) whose strings contain codes mapped differently by the two unicode tables; between the "
+        "predefined -H/-V CMaps) whose strings contain codes mapped differently by the two unicode tables; every document "
+        "dereferences references that resolve to nothing (no xref entry; in object-stream documents a compressed entry "
+        "past the stream's /N) as font, XObject, /Contents element and /Rotate, and may share a truncated Flate "
+        "content stream between its pages; between the "
         "pools a 'bulk' document (70 000 distinct names, 70 000 distinct unknown operators, 400 content streams, 150 "
         "fonts) is extracted, ordinary documents before and after it; operations: extract_text / extract_pages / "
         "extract_text_to_fp(text,xml,html,tag) / open-next-close of interleaved page iterators (public generator "
@@ -73,7 +76,7 @@ ASSUMPTIONS = [
 STATEMENT_STATUS: Dict[str, str] = {
     "tables_inv": "proved (all histories): encoding tables = initial; every CMap/unicode-map cache entry = fresh load of its key",
     "tables_only_grow": "proved (all histories): continuing a history never removes or alters a shared cache entry",
-    "cache_inv": "proved (all histories, every open iterator): object / object-stream / font cache entries = fresh computation",
+    "cache_inv": "proved (all histories, every open iterator): object / object-stream / font cache entries = fresh computation; the object-stream guard set is empty between operations",
     "touch_observationally_neutral": "proved: in-place normalisation of cached objects is idempotent and invisible to reads",
     "C12_extract_eq_spec": "proved: extract after ANY history = pages computed from fresh values only",
     "C12_history": "proved (full statement of DESIGN section 6)",
@@ -90,6 +93,8 @@ STATEMENT_STATUS: Dict[str, str] = {
     "C12_interp_reset": "proved: whatever the interpreter was left with by the previous page (unpainted path, unbalanced q, line width, dangling operands), the next page's result is the fresh page",
     "C12_interp_left_independent": "proved: what a page leaves behind does not depend on what it found",
     "curpath_leak_cex": "proved counter-example: init_state without the reset of the current path leaks a shape into the next page",
+    "C12_dangling_harmless": "proved: a reference that resolves to nothing (no xref entry / compressed entry past the stream's /N) reads as null and leaves valid caches; later reads are still the fresh values",
+    "guard_leak_cex": "proved counter-example: an object-stream 'in progress' mark that is not released after a failed lookup hides the stream's other objects",
     "umap_mode_cex": "proved counter-example: a unicode-map cache keyed by the collection name that holds only the table of the writing mode asked for first gives a later font of the other mode the wrong table (the model's entry holds both tables)",
     "C12_cmap_copy": "proved: extending a private CMap built with usecmap leaves the shared CMap = fresh load",
     "nocopy_cex": "proved counter-example: get_encoding without the copy leaks /Differences into later fonts",
@@ -575,6 +580,8 @@ def baseline_job(data: bytes, pw: str, las: List[str], reverse: bool = False, li
 
 
 def worker_main() -> None:
+    import logging
+    logging.getLogger("pdfminer").setLevel(logging.ERROR)
     job = json.load(sys.stdin)
     out = baseline_job(bytes.fromhex(job["doc"]), job["pw"], job["las"], job.get("reverse", False), job.get("light", False))
     json.dump(out, sys.stdout)
@@ -1275,6 +1282,8 @@ def replay(ctx: C.Ctx, doc, from_corpus: bool = False) -> None:
 def warm_imports() -> None:
     """Import every pdfminer module up front so that module-level LIT()/KWD() calls are not
     attributed to the first operation of a history."""
+    import logging
+    logging.getLogger("pdfminer").setLevel(logging.ERROR)     # tolerated damage is logged as warnings: keep the run readable
     import pdfminer.high_level  # noqa: F401
     import pdfminer.image  # noqa: F401
     import pdfminer.jbig2  # noqa: F401
